@@ -233,26 +233,29 @@ structure SensorSel where
   index : Int := 0
   deriving Repr, DecidableEq, Inhabited
 
-/-- `c.Sensors[idx]`: a `map[int]*HwmonSensor` lookup, `none` = nil pointer -/
+/-- `c.Sensors[idx]`: a `map[int]*HwmonSensor` lookup, `none` = key absent -/
 def lookupTemp (temps : List (Int × String)) (idx : Int) : Option String :=
   match temps with
   | [] => none
   | (k, v) :: rest => if k = idx then some v else lookupTemp rest idx
 
 /-- `for _, c := range controllers`; state = (`found`, `config.HwMon.TempInput`).
-    `c.Sensors[config.HwMon.Index].Input` dereferences a nil pointer when the key is absent. -/
+    `if hwmonSensor, exists := c.Sensors[config.HwMon.Index]; exists { found = true; ... }`:
+    a matching controller without the key is skipped.
+    (Before /repo commit 218c45c the code read `c.Sensors[config.HwMon.Index].Input` without a
+    presence test and this branch was a nil-pointer dereference, `.panic "nil"`.) -/
 def bindSensorLoop (matchp : String → String → Bool) (sel : SensorSel) :
     List Chip → Bool × String → Res (Bool × String)
   | [], acc => .ok acc
   | c :: cs, acc =>
     if matchp sel.platform c.platform then
       match lookupTemp c.temps sel.index with
-      | none => .panic "nil"
+      | none => bindSensorLoop matchp sel cs acc
       | some p => bindSensorLoop matchp sel cs (true, p)
     else bindSensorLoop matchp sel cs acc
 
 /-- The hwmon branch of `initializeSensors` for one sensor entry: `.ok input` = the sensor is
-    created with this `Input`; `.err` = "couldn't find hwmon device with platform ...". -/
+    created with this `Input`; `.err` = "couldn't find hwmon device with platform ... and index ...". -/
 def bindSensor (matchp : String → String → Bool) (chips : List Chip) (sel : SensorSel) : Res String :=
   match bindSensorLoop matchp sel chips (false, "") with
   | .ok (true, p) => .ok p
